@@ -600,6 +600,10 @@ class CallMixin:
         a = list(args)
         if not is_list(a[0].kind):
             a[0] = self.view_to_list(self.iter_view(a[0], st, node), st)
+        n = self.sum_counter = getattr(self, "sum_counter", -1) + 1
+        st.env[f"SUMARG{n}"] = a[0]  # ghost handle on the summed sequence (for post_lemmas)
+        if a[0].kind.target.elem == INT:
+            c = self.reg.contracts.get("sum_int", c)
         return self.apply_contract(c, a, kw, st, node)
 
     def bi_sorted(self, args, kw, st, node):
